@@ -206,6 +206,11 @@ pub trait TV: Copy + core::fmt::Debug + core::fmt::Display + 'static {
     fn variants(b: &[u64]) -> Vec<Self> {
         vec![Self::from_bits(b)]
     }
+    /// the slice and index API (C18); `None` when the type has no Index impl
+    fn from_slice_(s: &[Self::S]) -> Self;
+    fn write_to_slice_(&self, s: &mut [Self::S]);
+    fn index_(&self, _i: usize) -> Option<Self::S> { None }
+    fn index_mut_(&mut self, _i: usize, _v: Self::S) -> bool { false }
     fn from_toks(t: &[&str]) -> Self {
         let b: Vec<u64> = t.iter().map(|x| tok_bits(Self::S::SC, x)).collect();
         Self::from_bits(&b)
@@ -220,6 +225,10 @@ macro_rules! impl_tv {
             const NAME: &'static str = stringify!($V);
             fn from_lanes(l: &[$S]) -> Self { $V::new($(l[$i]),+) }
             fn lanes(&self) -> Vec<$S> { self.to_array().to_vec() }
+            fn from_slice_(s: &[$S]) -> Self { $V::from_slice(s) }
+            fn write_to_slice_(&self, s: &mut [$S]) { self.write_to_slice(s) }
+            fn index_(&self, i: usize) -> Option<$S> { Some(self[i]) }
+            fn index_mut_(&mut self, i: usize, v: $S) -> bool { self[i] = v; true }
         }
     )+};
 }
@@ -255,6 +264,10 @@ impl TV for Vec3A {
     fn lanes(&self) -> Vec<f32> {
         self.to_array().to_vec()
     }
+    fn from_slice_(s: &[f32]) -> Self { Vec3A::from_slice(s) }
+    fn write_to_slice_(&self, s: &mut [f32]) { self.write_to_slice(s) }
+    fn index_(&self, i: usize) -> Option<f32> { Some(self[i]) }
+    fn index_mut_(&mut self, i: usize, v: f32) -> bool { self[i] = v; true }
     fn variants(b: &[u64]) -> Vec<Self> {
         let l: Vec<f32> = b.iter().map(|x| f32::from_bits(*x as u32)).collect();
         // hidden-lane payloads: a finite value unlike any token, a NaN, all-ones, -inf
